@@ -704,6 +704,9 @@ static void mk_state(void)
   gv_L.maxn = 0;
   gv_ob.from_ = 0; gv_ob.to_ = 1; gv_ob.fs_ = 2;
   gv_ob.value_ = 1.25; gv_ob.reduction_dh_ = 0.125;
+#if LIN_SAMPLE == 2
+  gv_ob.value_ = 4.5;   /* a reading in the SECOND face (observed > pi): check z_angle_sample_face2 */
+#endif
   gv_sp.attr_or = 0.5; gv_sp.test_or = 1; gv_sp.indx_or = 0;
   P.sqrt_ret[0] = 5; P.sqrt_ret[1] = 13;
   P.atan2_ret[0] = 0.75; P.atan2_ret[1] = -2.5;
